@@ -252,7 +252,7 @@ def main(ctx):
             'PathConfineFS', f'fs_w_{wit}', fs_consts(3, 3, ALLOPS, rule='strip'),
             fsdefs(rp[:4], ['a', '/'], 'TreesAll'), [wit], view=True,
             workers=2))
-    nsim = 150 if quick else 1500
+    nsim = 100 if quick else 1500
     for bias in ('all', 'ok'):
         def sim(bias=bias):
             d = tlc.workdir(f'c13_sim_{bias}_out')
@@ -658,7 +658,7 @@ def replay_fs(ctx, pc, results, rule, quick):
         # requests that would close a symbolic-link cycle (not explored
         # further by the model): replayed under the monitor alone
         loops = {json.dumps(x) for x in printed_blocks(res, 'LOOP')}
-        for x in sorted(loops):
+        for x in sorted(loops)[::2 if quick else 1]:
             hist, it = json.loads(x)
             script = [conv_req(h) for h in hist]
             init = tree_from_model(pc.model_tree(it))
@@ -735,6 +735,28 @@ REGRESSIONS = [
         ('mkdir', b'a', b''), ('mkdir', b'a/b', b''),
         ('symlink', b'../..', b'a/b/up'), ('posix_rename', b'a/b', b'b'),
         ('opendir', b'b/up', b'')]),
+    ('relative link moved by posix_rename', [
+        ('mkdir', b'a', b''), ('symlink', b'..', b'a/up'),
+        ('posix_rename', b'a/up', b'up'), ('opendir', b'up', b'')]),
+    ('rewritten relative link moved by rename', [
+        ('mkdir', b'a', b''), ('symlink', b'../..', b'a/up'),
+        ('rename', b'a/up', b'up'), ('opendir', b'up', b'')]),
+    ('directory holding a relative link moved by rename', [
+        ('mkdir', b'a', b''), ('mkdir', b'a/b', b''),
+        ('symlink', b'../..', b'a/b/up'), ('rename', b'a/b', b'b'),
+        ('opendir', b'b/up', b'')]),
+    ('link renamed onto a name a target passes through', [
+        ('mkdir', b'a', b''), ('symlink', b'.', b'b'),
+        ('symlink', b'b/../..', b'a/l'), ('rename', b'b', b'a/b'),
+        ('stat', b'a/l', b'')]),
+    ('link posix_renamed onto a name a target passes through', [
+        ('mkdir', b'a', b''), ('symlink', b'.', b'b'),
+        ('symlink', b'b/../..', b'a/l'), ('posix_rename', b'b', b'a/b'),
+        ('stat', b'a/l', b'')]),
+    ('link hard-linked onto a name a target passes through', [
+        ('mkdir', b'a', b''), ('symlink', b'.', b'b'),
+        ('symlink', b'b/../..', b'a/l'), ('link', b'b', b'a/b'),
+        ('stat', b'a/l', b'')]),
     ('link created through a link to the root', [
         ('symlink', b'.', b'a'), ('symlink', b'..', b'a/b'),
         ('opendir', b'b', b'')]),
@@ -840,8 +862,8 @@ def replay_dl(ctx, pc, results, quick):
             if r['escapes'] or r['outside']:
                 note_dl(pc, world, found, cache, 'get',
                         {'dest': 'dir', 'cont': True}, hist, r, top, prio=0)
-        for name, mode, cap in (('scp sink (exhaustive + table)', 'scp', 450),
-                                ('get (table)', 'get', 450)):
+        for name, mode, cap in (('scp sink (exhaustive + table)', 'scp', 320),
+                                ('get (table)', 'get', 320)):
             cases = [c[0] for c in printed_blocks(results[name], 'CASE')]
             ctx.require(len(cases) > 50, f'{name}: no case table')
             cases.sort(key=lambda c: json.dumps(c, sort_keys=True))
@@ -926,6 +948,7 @@ DL_REGRESSIONS = [[_m(e) for e in h] for h in [
     [ent('../../x', 'file')],                                   # F4
     [ent('a', 'link', '/T/x'), ent('a', 'file')],               # F4b
     [ent('a', 'link', '../..'), ent('a', 'dir', sub=[ent('pwn', 'file')])],
+    [ent('a', 'link', '/T/x'), ent('', 'dir', sub=[ent('a', 'file')])],
 ]]
 
 PRESERVE_CASES = [[_m(e) for e in h] for h in [
@@ -944,8 +967,7 @@ def dl_history(mode, seq, preserve, rr_ev=None):
 
     def ent_shape(e):
         if e['type'] == 'link':
-            t = '/'.join(e['t'])
-            return 'link ' + ('absolute' if t.startswith('/') else 'relative')
+            return 'link'
         sh = e['type']
         nc = name_class(e['name'])
         if nc != 'plain':
